@@ -12,8 +12,9 @@ from props.c13 import variants, EXEMPT as C13_EXEMPT
 
 EXEMPT = {"minmax": "documented: non-sequential flags are those of the entry order+1 from the end"}
 # long-input clause: computations whose older-candle terms cancel exactly (confirmed numerically: 1e-13 relative)
-WINDOW_EXEMPT = {"vwmacd": "vwma is a difference of cumulative sums over the whole input: candles older than the window cancel exactly "
-                           "(single value on 400 candles vs sequential on the trailing 240 agree to 1e-13)"}
+# (an earlier version exempted vwmacd from the long-input clause because with the DEFAULT periods the candles older than the window
+#  cancel numerically; with slow_period + signal_period - 1 > warm-up they do not - the exemption was wrong and is gone)
+WINDOW_EXEMPT = {}
 N = 60
 N2 = 130
 W = 120
@@ -147,9 +148,19 @@ def analyse_one(args):
                     probs.append((f, "short-input-length", f"sequential series '{f}' has {len(v.data)} entries for {ns} candles (input shorter than the default period)"))
             elif not isinstance(v, (NA, list)):
                 probs.append((f, "short-input-not-a-series", f"sequential result of field '{f}' on {ns} candles is not a series ({type(v).__name__})"))
-        out.append(("short-input", {}, "ok", [], probs))
+        notes_s = []
+        if rn[0] == "raises":
+            if "IndexError" in str(rn[1]):
+                # an out-of-bounds access inside a numba kernel is undefined behaviour in the compiled code (no bounds check): not decidable here
+                notes_s.append(f"short input: sequential=False indexes out of bounds ({rn[1]}) - undefined behaviour under numba, undecided")
+            else:
+                probs.append(("*", "short-input-single-raises", f"sequential=False raises {rn[1]} on {ns} candles while sequential=True returns a series"))
+        out.append(("short-input", {}, "ok", notes_s, probs))
     elif rs[0] == "raises" and rn[0] == "ok":
-        out.append(("short-input", {}, "ok", [], [("*", "short-input-sequential-raises", f"sequential=True raises {rs[1]} on {ns} candles while sequential=False returns a value")]))
+        if "IndexError" in str(rs[1]):
+            out.append(("short-input", {}, "ok", [f"short input: sequential=True indexes out of bounds ({rs[1]}) - undefined behaviour under numba, undecided"], []))
+        else:
+            out.append(("short-input", {}, "ok", [], [("*", "short-input-sequential-raises", f"sequential=True raises {rs[1]} on {ns} candles while sequential=False returns a value")]))
     else:
         out.append(("short-input", {}, "undecided", f"sequential: {rs[0]} {str(rs[1])[:50]}", []))
     return fname, rel, out
